@@ -399,6 +399,30 @@ Proof.
   repeat split; try (vm_compute; reflexivity). vm_compute. discriminate.
 Qed.
 
+(* ... and with the repaired comparison (fix C19_09: every occurrence of an unnamed dim has its own code) an accepted match has
+   NO unnamed dim among the batch / sequence dims of the query: they are static or named, which is the hypothesis
+   [consistent val] of mha_check_sufficient.  The witness above is refused. *)
+Theorem mha_check_fresh_unnamed : forall st i h ub q q4,
+  mha_check_rewrite st i = Some (h, ub) -> mi_query i = Some q -> mi_query4 i = Some q4 ->
+  NoDup (filter is_fresh_unnamed (q ++ q4)) ->
+  forall d, In d (firstn 2 q) -> is_fresh_unnamed d = false.
+Proof.
+  intros st i h ub q q4 H Q Q4 ND d Hd.
+  destruct (mha_check_shapes _ _ _ _ H) as (b & s & d0 & dh & Eq & Eq4 & _).
+  rewrite Eq in Q. rewrite Eq4 in Q4. inversion Q; inversion Q4; subst q q4. clear Q Q4.
+  destruct (is_fresh_unnamed d) eqn:E; auto. exfalso.
+  assert (TW : forall x l1 l2, is_fresh_unnamed x = true -> In x l1 -> In x l2 -> ~ NoDup (filter is_fresh_unnamed (l1 ++ l2))).
+  { intros x l1 l2 Fx I1 I2 N. rewrite filter_app in N.
+    assert (A1 : In x (filter is_fresh_unnamed l1)) by (apply filter_In; auto).
+    assert (A2 : In x (filter is_fresh_unnamed l2)) by (apply filter_In; auto).
+    apply in_split in A1. destruct A1 as (u & v & A1). rewrite A1 in N. rewrite <- app_assoc in N. simpl in N.
+    apply NoDup_remove_2 in N. apply N. rewrite !in_app_iff. auto. }
+  simpl in Hd. destruct Hd as [<-|[<-|[]]]; eapply TW; eauto; simpl; auto.
+Qed.
+Theorem mha_unnamed_witness_refused_by_repair :
+  mha_check_rewrite false (mk_mha_in false true true (Some [-1000; -1001; 8]%Z) (Some [-1002; -1003; 2; 4]%Z) (Some [-1004; -1005; 8]%Z) (Some [-1006; -1007; 8]%Z) None None None) = None.
+Proof. vm_compute. reflexivity. Qed.
+
 (* the mask test of check: dimension 2 of an accepted rank-4 mask is S (no Expand) or 1 (Expand to S) *)
 Lemma mask_dim2_rule_sound : forall s d2 ub, mask_dim2_rule s d2 = Some ub -> (ub = false /\ d2 = s) \/ (ub = true /\ d2 = 1%Z).
 Proof.
